@@ -15,6 +15,11 @@ import convmodel as CM
 TY = "rssl_typer"
 
 
+def member_path(name):
+    return I.Enum("ScopedIdentifier", None, {"base": I.Enum("ScopedIdentifierBase", "Relative"),
+                                             "identifiers": [I.Enum("Located", None, {"node": name, "location": I.Opaque("loc")})]})
+
+
 def located(tag):
     return I.Enum("Located", None, {"tag": tag, "location": I.Opaque("loc"), "node": I.Opaque("node")})
 
@@ -47,7 +52,11 @@ class Elab:
         """a Module whose local variable k has the type of operand TAGS[k]"""
         lv = [I.Enum("LocalVariable", None, {"type_id": operands[t].fields["0"] if t in operands else I.Enum("TypeId", None, {"0": 0})})
               for t in self.TAGS]
-        return I.Enum("Module", None, {"type_registry": I.Opaque("types"), "enum_registry": self.enums,
+        f32, f324 = self.u.type_id("Float32") if "Float32" in self.u.names else None, self.u.type_id("Float324") if "Float324" in self.u.names else None
+        structs = [I.Enum("StructDefinition", None, {"methods": [], "members": [
+            I.Enum("StructMember", None, {"name": "a", "type_id": f32}), I.Enum("StructMember", None, {"name": "v", "type_id": f324})]})]
+        return I.Enum("Module", None, {"type_registry": I.Opaque("types"), "enum_registry": self.enums, "struct_registry": structs,
+                                       "function_registry": I.Opaque("functions"),
                                        "variable_registry": I.Enum("VariableRegistry", None, {"local_variables": lv})})
 
     def operand_node(self, tag, e):
@@ -90,6 +99,8 @@ class Elab:
 
     def interp(self, operands):
         self.cur = operands
+        self.module = self.module_for(operands)
+        self.ctx = I.Enum("Context", None, {"module": self.module})
         if getattr(self, "_ip", None) is not None:
             return self._ip
         ext = dict(self.base_ext)
@@ -116,6 +127,12 @@ class Elab:
     def run_unop(self, op, l):
         ip = self.interp({"L": l})
         return self._run(ip, self.unop, [I.Enum("UnaryOp", op), located("L"), self.ctx])
+
+    def run_expr(self, ast_node, operands):
+        """parse_expr_unchecked on a hand-built ast node whose sub-expressions are located(tag)"""
+        ip = self.interp(operands)
+        fn = self.f.fn("parse_expr_unchecked", TY)
+        return self._run(ip, fn, [ast_node, self.ctx])
 
     def run_ternary(self, c, l, r):
         ip = self.interp({"C": c, "L": l, "R": r})
